@@ -809,7 +809,8 @@ def run_case(prop, case):
         v["sig"]["ops"] = [o["op"] for o in case["ops"][: v["sig"].get("step", -1) + 1]]
         v["sig"].pop("step", None)
     sample = {"net": case["net"]["inputs"], "output": case["net"]["output"], "sizes": case["net"]["size_dict"],
-              "init": case["init"]["kind"], "ops": [o["op"] for o in case["ops"]]}
+              "init": case["init"]["kind"], "ops": [o["op"] for o in case["ops"]],
+              "interesting": len(case["ops"]) >= 6 and bool(pools)}
     return {"violations": violations, "digest": log.digest(), "counters": dict(counters), "faults": dict(faults),
             "states": list(states), "sim_seconds": clk.now, "nontrivial": mutated, "sample": sample}
 
